@@ -250,6 +250,7 @@ class AllGaps(Sub):
     """Every enumerated gap and overlap of every zone x edge probes x folds x flags."""
     name = "all_gaps_overlaps"
     kind = "enum"
+    case_timeout = 900.0
     backends = ("rust",)
     n = {"quick": 0, "thorough": 0}
     shards = {"quick": 4, "thorough": 16}
